@@ -91,8 +91,14 @@ func produce(e *qenv.Env, rng *rand.Rand, c QCfg) error {
 
 // consume reads up to n events in one read transaction (sometimes partially) and ACKs them.
 func consume(e *qenv.Env, rng *rand.Rand, n int, ack bool) int {
+	got, _ := consumeAck(e, rng, n, ack)
+	return got
+}
+
+// consumeAck also returns the number of events it ACKed.
+func consumeAck(e *qenv.Env, rng *rand.Rand, n int, ack bool) (int, int) {
 	if e.RBegin() != nil {
-		return 0
+		return 0, 0
 	}
 	if rng.Intn(3) == 0 {
 		e.Available()
@@ -138,9 +144,11 @@ func consume(e *qenv.Env, rng *rand.Rand, n int, ack bool) int {
 			k = 1 + rng.Intn(k)
 		}
 		// events beyond k that were consumed stay un-ACKed; the reader does not re-deliver them
-		e.ACK(k)
+		if e.ACK(k) == nil {
+			return got, k
+		}
 	}
-	return got
+	return got, 0
 }
 
 // RunQueueHistory runs a random single-goroutine producer/consumer history.
